@@ -242,6 +242,7 @@ func checkC11(c *Ctx) {
 	c.check("goccy.quoted-key-rendered", gp+".encInfo.quotedKey", ed.Decl.Pos(), okUsed, "the recorded quotedKey must be consulted when the mapping is rendered")
 
 	checkYAMLBytesBinary(c)
+	c11NewlineTable(c)
 
 	// ---- token kinds
 	for _, spec := range []struct{ pkg, fn string }{{yp, "encodeScalar"}, {gp, "encodeScalar"}} {
@@ -346,4 +347,69 @@ func checkYAMLBytesBinary(c *Ctx) {
 			"a bytes literal must get the !!binary tag on every path of the yaml.v3 encoder; success returns reachable without it: {"+strings.Join(rets, " | ")+"}")
 	}
 
+}
+
+// c11NewlineTable: decision table of the goccy encoder for text (double-quoted
+// CUE strings) that contains a newline: it is emitted as a block literal only
+// when the literal was multi-line *and* blockLiteralSafe holds, otherwise as a
+// double-quoted YAML scalar (strconv.Quote) — never as a plain scalar, which
+// folds the newline into a space.
+func c11NewlineTable(c *Ctx) {
+	const gp = "internal/encoding/yaml/goccy"
+	f := c.fn(gp, "encodeScalar")
+	cf := newCaseFn(c, f)
+	truth := map[string]bool{}
+	var dbl, nl, multi, safe string
+	for k := range cf.atoms() {
+		switch {
+		case strings.Contains(k, "p0.Kind") && strings.Contains(k, " == "):
+			truth[k] = strings.Contains(k, "token.STRING")
+		case strings.HasSuffix(k, ".IsDouble()"):
+			dbl = k
+		case strings.HasPrefix(k, "strings.Contains(") && strings.HasSuffix(k, `,"\n")`):
+			nl = k
+		case strings.HasSuffix(k, ".IsMulti()"):
+			multi = k
+		case strings.HasPrefix(k, "blockLiteralSafe("):
+			safe = k
+		case k == "err == nil":
+			truth[k] = true
+		}
+	}
+	if dbl == "" || nl == "" || multi == "" || safe == "" {
+		c.check("goccy.newline-table", f.Name, f.Decl.Pos(), false, fmt.Sprintf("anchor: tests not found (IsDouble=%q newline=%q IsMulti=%q blockLiteralSafe=%q)", dbl, nl, multi, safe))
+		return
+	}
+	for _, row := range []struct {
+		name        string
+		multi, safe bool
+		wantQuoted  bool
+	}{
+		{"single-line-literal", false, true, true},
+		{"multi-line-literal/unsafe", true, false, true},
+		{"multi-line-literal/safe", true, true, false},
+	} {
+		tr := map[string]bool{dbl: true, nl: true, multi: row.multi, safe: row.safe}
+		for k, v := range truth {
+			tr[k] = v
+		}
+		rets, _ := cf.walk(cf.g.Entry, tr)
+		ok := len(rets) > 0
+		for _, r := range rets {
+			if !strings.HasSuffix(r, ", nil") {
+				continue
+			}
+			quoted := strings.Contains(r, "strconv.Quote(")
+			plainOrBlock := !strings.Contains(r, "rawScalar(") && !strings.Contains(r, "literalString(")
+			if row.wantQuoted && !quoted {
+				ok = false
+			}
+			if !row.wantQuoted && !plainOrBlock {
+				ok = false
+			}
+		}
+		c.check("goccy.newline-table", f.Name+"/"+row.name, f.Decl.Pos(), ok,
+			fmt.Sprintf("text containing a newline, class %s: %s; reachable results {%s}", row.name,
+				map[bool]string{true: "must be emitted double-quoted (strconv.Quote)", false: "is emitted as a block literal (the bare string)"}[row.wantQuoted], strings.Join(rets, " | ")))
+	}
 }
